@@ -217,9 +217,9 @@ func findLoops(paths []*Path) []*LoopInfo {
 type Counted struct {
 	Loop  *LoopInfo
 	Phi   *ssa.Phi
-	Idx   *Term // the term compared in the continue condition and used as index (φ or φ+1)
-	First *Poly // value of Idx in the first iteration
-	Step  int64 // change of Idx per iteration
+	Idx   *Term  // the term compared in the continue condition and used as index (φ or φ+1)
+	First *Poly  // value of Idx in the first iteration
+	Step  int64  // change of Idx per iteration
 	Op    string // continue condition: Idx Op Bound
 	Bound *Term
 }
